@@ -686,7 +686,8 @@ func (fx *FuncExec) autoRangeVariant(ps *pathState, li *LoopInfo) {
 	rl, ok2 := lv["rangelen"].(Scalar)
 	if ok1 && ok2 {
 		// the hidden counter never exceeds the bound (it is only incremented while below it)
-		ps.st.assume(tAnd(tLe(intLit(-1), ri.T), tLt(ri.T, tAdd(rl.T, intLit(1)))))
+		// (a fact about this iteration's fresh counter symbol: it survives modular cuts of inner loops)
+		ps.st.assumeGlobal(tAnd(tLe(intLit(-1), ri.T), tLt(ri.T, tAdd(rl.T, intLit(1)))))
 		ps.variants[li] = []Term{tSub(rl.T, ri.T)}
 	}
 }
@@ -753,6 +754,14 @@ func (fx *FuncExec) execBlock(ps *pathState, blk *ssa.BasicBlock, pred *ssa.Basi
 					prev := ps.variants[li]
 					if ok1 && ok2 && len(prev) == 1 {
 						cur := tSub(rl.T, ri.T)
+						// the body of a range loop is only entered through the header's true edge, so the
+						// header's test held in this iteration (inner modular cuts drop it from the path)
+						if ifi, ok := li.header.Instrs[len(li.header.Instrs)-1].(*ssa.If); ok && li.blocks[li.header.Succs[0]] && !li.blocks[li.header.Succs[1]] {
+							if cv, ok := st.regs[ifi.Cond].(Scalar); ok {
+								st = st.clone()
+								st.assume(cv.T)
+							}
+						}
 						fx.addObl(fmt.Sprintf("dec loop#%d", li.ord), "dec", fx.propDefault(), "range loop: the counter approaches its fixed bound", fx.con.Line, false, st, tAnd(tLt(cur, prev[0]), tLe(intLit(0), prev[0])), ps.trail)
 					}
 				} else if li.spec == nil || len(li.spec.Dec) == 0 {
